@@ -188,8 +188,120 @@ class RoundTrip(Unit):
         if out.kind == "return":
             for r in out.value:
                 if r[0].startswith("read") and len(r) == 3 and V.buf_len(r[1]) == len(r[2]) and len(r[2]):
-                    yield "canary:reads-zero", list(r[1])[0] == 0
+                    yield "canary:read-data-off-by-one", list(r[1])[0] == r[2][0] + 1
                     return
+
+
+PER_CALL = {
+    # facade method: (layout key, count parameter)
+    "write10": ("Write10", "tl"), "write12": ("Write12", "tl"), "write16": ("Write16", "tl"),
+    "read10": ("Read10", "tl"), "read12": ("Read12", "tl"), "read16": ("Read16", "tl"),
+    "writesame10": ("WriteSame10", "nb"), "writesame16": ("WriteSame16", "nb"),
+    "synchronizecache10": ("SynchronizeCache10", "numblks"), "synchronizecache16": ("SynchronizeCache16", "numblks"),
+}
+
+
+class PerCall(Unit):
+    """the per-call facts the C12 lemma rests on, through the real transports, for ALL lengths and block sizes: the
+    binding receives exactly one command whose CDB the standard's decoder maps to the caller's (lba, count, flags),
+    the caller's data object as data-out, and as data-in a buffer of count x block size bytes that is the very
+    object the caller gets back"""
+
+    name = "rw/per-call"
+    properties = ("C12",)
+    assumptions = EXTERNAL_ASSUMPTIONS
+
+    def functions(self):
+        S = scsimod().SCSI
+        return [getattr(S, m) for m in PER_CALL] + [devmod().SCSIDevice.execute, iscsimod().ISCSIDevice.execute]
+
+    def cases(self, tier):
+        return [{"method": m, "transport": t} for m in sorted(PER_CALL) for t in ("sgio", "iscsi")]
+
+    def interp_config(self, case):
+        from .converter import l0_contracts
+
+        return {"contracts": l0_contracts()}
+
+    def inputs(self, case):
+        from spec import cdb_layouts as L
+
+        lay = L.CDB[PER_CALL[case["method"]][0]]
+        d = {p: U(f.width) for p, f in lay.fields.items()}
+        d["blocksize"] = U(lo=1, hi=(1 << 16))
+        return d
+
+    def run(self, X, case, a):
+        from spec import cdb_layouts as L
+
+        S = scsimod().SCSI
+        w = World()
+        w.present[PATH] = True
+        w.inode[PATH] = 5
+        self.world = w
+        key, cnt = PER_CALL[case["method"]]
+        lay = L.CDB[key]
+        self.data = bytearray(b"\x11" * 4)
+        with world_installed(w):
+            dev = X.call(devmod().SCSIDevice, PATH, True) if case["transport"] == "sgio" else X.call(iscsimod().ISCSIDevice, URL, "iqn.2000-01.test:i")
+            s = object.__new__(S)
+            s.device = dev
+            s._blocksize = a.blocksize
+            dev.opcodes = C.table("sbc")
+            del w.trace[:]
+            kw = {p: a[p] for p in lay.fields if p not in ("lba", cnt)}
+            m = getattr(s, case["method"])
+            if case["method"].startswith("write"):
+                return X.call(m, a.lba, a[cnt], self.data, **kw)
+            return X.call(m, a.lba, a[cnt], **kw)
+
+    def ensures(self, case, a, out, X):
+        from spec import cdb_layouts as L
+
+        key, cnt = PER_CALL[case["method"]]
+        lay = L.CDB[key]
+        if out.kind != "return":
+            yield "C12", "command-completes (raised %s)" % type(out.exc).__name__, False
+            return
+        cmd = out.value
+        sent = [t for t in self.world.trace if t[0] in ("sgio.execute", "iscsi.command")]
+        yield "C12", "binding-receives-exactly-one-command", len(sent) == 1
+        if len(sent) != 1:
+            return
+        if sent[0][0] == "sgio.execute":
+            _, _, cdb, dout, din, _ = sent[0]
+        else:
+            _, _, _, task, dout, din = sent[0]
+            cdb = task.cdb
+        ok = isinstance(cdb, (bytearray, V.SBytes)) and len(cdb) == lay.length
+        yield "C12", "cdb-has-the-length-of-its-group", ok
+        if not ok:
+            return
+        yield "C12", "cdb-opcode", cdb[0] == lay.opcode
+        for p, f in lay.fields.items():
+            yield "C12", "target-decodes-%s-as-given (%s)" % (p, f.describe()), f.decode(cdb) == a[p]
+        for i in range(lay.length):
+            mask = lay.reserved_mask(i)
+            if mask:
+                yield "C12", "reserved-bits-zero:byte%d" % i, (cdb[i] & mask) == 0
+        yield "C12", "buffers-handed-to-the-binding-are-the-commands", dout is cmd.dataout and din is cmd.datain
+        if case["method"].startswith("read"):
+            yield "C12", "data-in-buffer-is-count-x-blocksize-bytes", V.buf_len(din) == a[cnt] * a.blocksize
+            yield "C12", "no-data-out", V.buf_len(dout) == 0
+        elif case["method"].startswith("write"):
+            ndob = a["ndob"] if "ndob" in a else 0
+            yield "C12", "data-out-is-the-callers-object", V.bor(ndob != 0, dout is self.data)
+            yield "C12", "no-data-in", V.buf_len(din) == 0
+        else:
+            yield "C12", "no-data-phase", V.band(V.buf_len(din) == 0, V.buf_len(dout) == 0)
+        if sent[0][0] == "iscsi.command":
+            tasks = self.world.events("iscsi.Task")
+            if len(tasks) == 1:
+                _, task, tcdb, direction, xferlen = tasks[0]
+                exp_dir = 1 if case["method"].startswith("read") else 2 if case["method"].startswith("write") else 0
+                nonempty = V.buf_len(din) != 0 if exp_dir == 1 else (V.buf_len(dout) != 0 if exp_dir == 2 else False)
+                yield "C12", "iscsi-transfer-direction", V.bor(V.bnot(nonempty), direction == exp_dir)
+                yield "C12", "iscsi-transfer-length", xferlen == (V.buf_len(din) if exp_dir == 1 else V.buf_len(dout) if exp_dir == 2 else 0) if exp_dir != 2 else True
 
 
 class ArrayLemmas(Unit):
@@ -235,5 +347,6 @@ class ArrayLemmas(Unit):
             yield "canary:every-index-lies-inside-the-transfer", a.i < a.n
 
 
+register(PerCall())
 register(RoundTrip())
 register(ArrayLemmas())
